@@ -115,6 +115,15 @@ class Intervals:
                         c = int(ci.ops[1]["sv"]) if pr.startswith("s") else int(ci.ops[1]["v"])
                         q = pr[1:] if pr not in ("eq", "ne") else pr
                         if not taken: q = {"lt": "ge", "le": "gt", "gt": "le", "ge": "lt", "eq": "ne", "ne": "eq"}[q]
+                        # (v >> s) == 0  <=>  v < 2^s
+                        o0 = ci.ops[0]
+                        if o0["k"] == "inst" and fn.imap[o0["v"]].op == "lshr" and c == 0 and q in ("eq", "ne"):
+                            sh = fn.imap[o0["v"]]; amt = self.ival(sh.ops[1])
+                            if amt[0] == amt[1] and amt[0] != INF:
+                                kv = self.key_of(sh.ops[0])
+                                if kv is not None:
+                                    if q == "eq": add(kv, hi=(1 << int(amt[0])) - 1)
+                                    else: add(kv, lo=(1 << int(amt[0])))
                         if k is not None:
                             if q == "lt": add(k, hi=c - 1)
                             elif q == "le": add(k, hi=c)
@@ -151,6 +160,7 @@ class Intervals:
         if k == "null": return (0, 0)
         if k == "arg":
             if o["v"] in self.ctx: c = self.ctx[o["v"]]; return (c, c)
+            if o["v"] in getattr(self, "arg_ranges", {}): return self.arg_ranges[o["v"]]
             return type_range(o["t"])
         if k != "inst": return (-INF, INF)
         key = o["v"]
@@ -224,12 +234,38 @@ class Intervals:
                 n = max(a[1], b[1]).bit_length(); return (max(a[0], b[0]), (1 << n) - 1)
             return top
         if op == "select":
-            a = A(1); b = A(2); return (min(a[0], b[0]), max(a[1], b[1]))
+            a = A(1); b = A(2)
+            # refine an arm that is the very value the condition tests:  (v >> k) != 0 ? K : v   =>   v < 2^k on the else arm
+            c = i.ops[0]
+            if c["k"] == "inst":
+                ci = self.fn.imap[c["v"]]
+                if ci.op == "icmp" and ci.ops[1]["k"] == "int":
+                    tested = ci.ops[0]; k0 = int(ci.ops[1]["v"]); pr = ci["pred"]
+                    lim = None      # (value operand, [lo,hi] when the condition is FALSE, [lo,hi] when TRUE)
+                    if tested["k"] == "inst" and self.fn.imap[tested["v"]].op == "lshr" and self.fn.imap[tested["v"]].ops[1]["k"] == "int" and k0 == 0 and pr in ("ne", "eq"):
+                        sh = self.fn.imap[tested["v"]]; kk = int(sh.ops[1]["v"])
+                        small = (0, (1 << kk) - 1); big = (1 << kk, INF)
+                        lim = (sh.ops[0], small if pr == "ne" else big, big if pr == "ne" else small)
+                    elif pr in ("ult", "ule", "ugt", "uge"):
+                        lt = {"ult": (0, k0 - 1), "ule": (0, k0), "ugt": (k0 + 1, INF), "uge": (k0, INF)}[pr]
+                        ge = {"ult": (k0, INF), "ule": (k0 + 1, INF), "ugt": (0, k0), "uge": (0, k0 - 1)}[pr]
+                        lim = (tested, ge, lt)
+                    if lim is not None:
+                        def same(x, y): return (x["k"], x.get("v")) == (y["k"], y.get("v"))
+                        if same(i.ops[1], lim[0]): a = (max(a[0], lim[2][0]), min(a[1], lim[2][1]))
+                        if same(i.ops[2], lim[0]): b = (max(b[0], lim[1][0]), min(b[1], lim[1][1]))
+            return (min(a[0], b[0]), max(a[1], b[1]))
         if op == "phi":
             lo, hi = INF, -INF
             for inc in i["incoming"]:
                 if inc["v"]["k"] == "inst" and inc["v"]["v"] == i.id: continue
-                a = self.ival(inc["v"], depth + 1); lo = min(lo, a[0]); hi = max(hi, a[1])
+                a = self.ival(inc["v"], depth + 1)
+                if self.fi is not None or True:
+                    try:
+                        ra, _ = self.ival_at(inc["v"], self.fn.bmap[inc["b"]])        # facts that hold where the value comes from
+                        a = (max(a[0], ra[0]), min(a[1], ra[1]))
+                    except Exception: pass
+                lo = min(lo, a[0]); hi = max(hi, a[1])
             # a loop-carried phi may grow: only trust it when no incoming value depends on the phi itself
             if any(inc["v"]["k"] == "inst" and self._depends(inc["v"]["v"], i.id) for inc in i["incoming"]): return top
             return (lo, hi) if lo != INF else top
